@@ -7,6 +7,7 @@ MCBodies == {<<6, 9, 10, 3>>, <<0, 128, 255, 7, 14>>}
 CONSTANT CHANCAP
 Cap == Len(c2s) <= CHANCAP /\ Len(s2c) <= CHANCAP
 MCMults == <<3, 7>>
+MCAccts == {0, 7, 239}
 \* finished behaviours (quiet channels after all budgets are used) are emitted for replay through the real primitives
 VARIABLE log
 LInit == Init /\ log = <<>>
@@ -17,11 +18,17 @@ LNext == \/ ClientHello /\ log' = Append(log, Rec("ClientHello"))
          \/ ClientInitReply /\ log' = Append(log, Rec("ClientInitReply"))
          \/ ClientSend /\ log' = Append(log, Rec("ClientSend"))
          \/ ServerRecv /\ log' = Append(log, Rec("ServerRecv"))
+         \/ ServerSend /\ log' = Append(log, Rec("ServerSend"))
+         \/ ClientRecv /\ log' = Append(log, Rec("ClientRecv"))
          \/ ServerPing /\ log' = Append(log, Rec("ServerPing"))
          \/ ClientPing /\ log' = Append(log, Rec("ClientPing"))
          \/ ServerPong /\ log' = Append(log, Rec("ServerPong"))
+         \/ ClientAcctRequest /\ log' = Append(log, Rec("ClientAcctRequest"))
+         \/ ServerAcctRecv /\ log' = Append(log, Rec("ServerAcctRecv"))
+         \/ ServerAcctReply /\ log' = Append(log, Rec("ServerAcctReply"))
+         \/ ClientAcctReply /\ log' = Append(log, Rec("ClientAcctReply"))
 LSpec == LInit /\ [][LNext]_<<vars, log>>
-Quiet == c2s = <<>> /\ s2c = <<>> /\ cstate = "ready" /\ sent = MAXSENT /\ pings = MAXPINGS
+Quiet == c2s = <<>> /\ s2c = <<>> /\ cstate = "ready" /\ ~owed /\ sent = MAXSENT /\ pings = MAXPINGS /\ accts = MAXACCTS /\ ssent = MAXSSENT
 \* the history variable is hidden from the fingerprint in the exhaustive run (VIEW) and used only in simulation
 View == vars
 Emit == Quiet => PrintT(ToJson([challenge |-> challenge, log |-> log]))
